@@ -100,6 +100,10 @@ func workerDrive(args []string) int {
 				if len(ans) == 0 {
 					continue
 				}
+				var refMeta map[string]any
+				if json.Unmarshal(ref.Meta, &refMeta) == nil && refMeta["dart_last_source_first"] == true && len(ans) > 1 {
+					ans = append([]*analysis.Analysis{ans[len(ans)-1]}, ans[:len(ans)-1]...)
+				}
 				w.Begin(ref.ID, "gen-dart")
 				res := drive.GenerateDart(l.Root, ans)
 				ctx.Gen["dart"] = res
